@@ -77,13 +77,29 @@ class Ctx:
 # --------------------------------------------------------------------------------------------
 # building the harness from /repo's current working tree
 
+def modfile_args(ctx):
+    """go build arguments selecting the tree under test: the harness module replaces the library by /repo; with
+    VERIF_REPO set (self-tests of the machinery on a scratch copy) a go.mod with that path is written to the scratch."""
+    if REPO == "/repo":
+        return []
+    mod = os.path.join(ctx.scratch, "go.mod")
+    if not os.path.exists(mod):
+        text = open(os.path.join(HARNESS, "go.mod")).read().replace("=> /repo", "=> " + REPO)
+        open(mod, "w").write(text)
+        for cand in (os.path.join(REPO, "go.sum"), os.path.join(HARNESS, "go.sum")):
+            if os.path.exists(cand):
+                shutil.copy(cand, os.path.join(ctx.scratch, "go.sum"))
+                break
+    return ["-modfile=" + mod]
+
+
 def build_harness(ctx):
     out = os.path.join(ctx.scratch, "jmv")
     gosum = os.path.join(REPO, "go.sum")
     if os.path.exists(gosum):
         shutil.copy(gosum, os.path.join(HARNESS, "go.sum"))
     for tags in (["-tags", "verif"], []):
-        p = subprocess.run(["go", "build"] + tags + ["-o", out, "./jmv"], cwd=HARNESS, env=GOENV,
+        p = subprocess.run(["go", "build"] + modfile_args(ctx) + tags + ["-o", out, "./jmv"], cwd=HARNESS, env=GOENV,
                            capture_output=True, text=True)
         if p.returncode == 0:
             ctx.jmv = out
@@ -100,7 +116,7 @@ def build_race(ctx):
     """The harness with the Go race detector (the only observer of the Go memory model)."""
     out = os.path.join(ctx.scratch, "jmv_race")
     for tags in (["-tags", "verif"], []):
-        p = subprocess.run(["go", "build", "-race"] + tags + ["-o", out, "./jmv"], cwd=HARNESS, env=GOENV, capture_output=True, text=True)
+        p = subprocess.run(["go", "build", "-race"] + modfile_args(ctx) + tags + ["-o", out, "./jmv"], cwd=HARNESS, env=GOENV, capture_output=True, text=True)
         if p.returncode == 0:
             return out
     raise Machinery("race-enabled harness build failed:\n" + p.stderr[-2000:])
@@ -668,8 +684,9 @@ def write_evidence(ctx, level="model_checking", extra=None):
                           "the codec and comparator of /verif/harness (exercised by canaries in every run)",
                           "the specification in /verif/spec states what JMESPath requires (validated against the official compliance suite)"],
           "wall_s": round(time.time() - ctx.t0, 1), "violations": getattr(ctx, "violations", 0)}
-    os.makedirs(os.path.join(ROOT, "evidence"), exist_ok=True)
-    with open(os.path.join(ROOT, "evidence", ctx.prop + ".json"), "w") as f:
+    evdir = os.environ.get("VERIF_EVIDENCE_DIR") or os.path.join(ROOT, "evidence")      # (self-tests on scratch copies write elsewhere)
+    os.makedirs(evdir, exist_ok=True)
+    with open(os.path.join(evdir, ctx.prop + ".json"), "w") as f:
         json.dump(ev, f, indent=1)
 
 
